@@ -291,6 +291,19 @@ def product_cases(family):
             out.append(dict(family="splitbatch", code="SPLIT_V", axis=3, b=b, sizes=[1, 2]))
             out.append(dict(family="splitbatch", code="SPLIT", axis=3, b=b, sizes=[2, 2]))
             out.append(dict(family="splitbatch", code="SPLIT", axis=0, b=b, sizes=[1] * b))
+    elif family == "mean":
+        # the MEAN sentences decided together over (axes, H, W, C, data type): "Reduction in Depth axis is supported if at least one of H,W,C are of size 1", "Product of
+        # reduced axes must be no greater than 16777216 / 8388608 / 65536 (int8 / uint8 / int16)" - every reduced axis counts, the depth included -, "If Width (Depth) axis is
+        # reduced its shape must be no greater than 4096"
+        shapes = {(1, 2): [(256, 256, 1), (257, 256, 1), (256, 257, 1), (128, 128, 2), (16, 4096, 1), (8, 4097, 1), (3, 5, 4)],
+                  (2, 3): [(1, 256, 256), (1, 257, 256), (1, 256, 257), (2, 16, 16), (1, 16, 16), (16, 1, 16), (1, 16, 4096), (1, 8, 4097)],
+                  (1, 3): [(256, 1, 256), (257, 1, 256), (16, 2, 16), (1, 2, 16), (16, 16, 1)],
+                  (3,): [(2, 2, 64), (1, 2, 4096), (1, 2, 4097), (2, 1, 64)],
+                  (1, 2, 3): [(16, 16, 1), (8, 8, 4), (1, 256, 256), (1, 257, 256), (257, 1, 256), (256, 1, 256)]}
+        for axes, lst in shapes.items():
+            for (h, w, c) in lst:
+                for dt in ("int16", "int8", "uint8"):
+                    out.append(dict(family="mean", axes=list(axes), h=h, w=w, c=c, dt=dt))
     elif family == "resize":
         for code in ("RESIZE_BILINEAR", "RESIZE_NEAREST_NEIGHBOR"):
             for (ih, iw) in ((1, 1), (2, 2), (2, 3), (3, 3), (4, 2)):
@@ -352,6 +365,22 @@ def product_spec(p, c):
         ok = p["a"] == p["b"] and (not p["faf"] or p["o"] in ("int16", "int8", "uint8"))
         ok = ok and (not signed(p["a"]) or signed(p["o"])) and (signed(p["a"]) or p["o"] in (p["a"], "int32"))
         return spec, ok, "eltwise"
+    if p["family"] == "mean":
+        axes, h, w, cc, dt = p["axes"], p["h"], p["w"], p["c"], p["dt"]
+        shape = [1, h, w, cc]
+        oshape = [1 if i in axes else v for i, v in enumerate(shape)]
+        q = (0.05, 128) if dt == "uint8" else (0.05, 0)
+        spec = unary_spec("MEAN", shape, dt, "ReducerOptions", dict(KeepDims=True), out_shape=oshape, extra_inputs=[T("axis", [len(axes)], "int32", None, None, dict(values=list(axes)))], out_q=q)
+        spec["tensors"][0]["zp"] = q[1]
+        prod = 1
+        for a in axes:
+            prod *= shape[a]
+        ok = prod <= {"int8": 1 << 24, "uint8": 1 << 23, "int16": 1 << 16}[dt]
+        if 3 in axes:
+            ok = ok and 1 in (h, w, cc) and cc <= 4096
+        if 2 in axes:
+            ok = ok and w <= 4096
+        return spec, ok, "mean"
     if p["family"] == "tconv":
         sw, sh, ih, iw, kh, kw, pad = p["sw"], p["sh"], p["ih"], p["iw"], p["kh"], p["kw"], p["pad"]
         if pad == "SAME":
@@ -518,6 +547,7 @@ def parts(ctx):
     prods += [Part("product-eltwise%02d" % i, products, ("eltwise", i, 4, 128 if q else 0)) for i in range(4)]
     prods += [Part("product-avgpool%02d" % i, products, ("avgpool", i, 2, 60 if q else 0)) for i in range(2)]
     prods += [Part("product-splitbatch", products, ("splitbatch", 0, 1, 0))]
+    prods += [Part("product-mean%02d" % i, products, ("mean", i, 3, 0)) for i in range(3)]
     return prods + [Part("grid%02d" % i, grid, (i, 12)) for i in range(12)] + [Part("place%02d" % i, placements, (i, 6 if q else 400)) for i in range(3 if q else 15)] + [Part("publication", publication, None)]
 
 
